@@ -601,6 +601,9 @@ pub fn chain(rng: &mut Rng, base: Tensor<i64>, m0: Arr<i64>, budget: usize, stat
                         }
                         let add = Tensor::from_data(add_shape.as_slice(), addend.data.clone());
                         let appended = if extra > 0 { t.append(axis, &add).is_ok() } else { true };
+                        if permuted_storage && std::env::var_os("VERIF_DEBUG_APPEND").is_some() {
+                            eprintln!("PERM q={:?} axis={} extra={} with_cap={} appended={} shape={:?} strides={:?}", q, axis, extra, with_cap, appended, t.shape(), t.strides());
+                        }
                         (t, appended)
                     });
                     match r {
@@ -608,8 +611,17 @@ pub fn chain(rng: &mut Rng, base: Tensor<i64>, m0: Arr<i64>, budget: usize, stat
                         Ok((mut t, appended)) => {
                             let model_now = if appended && extra > 0 { cat.clone() } else { mcur.clone() };
                             let t_shape: Vec<usize> = t.shape().to_vec();
+                            // The appended part would be cut away again by the clip below (its
+                            // range lies within the original size), so compare everything now.
+                            let content_diff = if t_shape == model_now.shape {
+                                naive::indices(&t_shape).into_iter().find(|idx| t.get(idx.as_slice()).copied() != Some(*model_now.at(idx)))
+                            } else {
+                                None
+                            };
                             if t_shape != model_now.shape {
                                 Err(format!("APPEND_SHAPE got {:?} want {:?}", t_shape, model_now.shape))
+                            } else if let Some(idx) = content_diff {
+                                Err(format!("APPEND_CONTENT after append (returned {}) element {:?} is {:?}, expected {}", if appended && extra > 0 { "Ok" } else { "Err / nothing appended" }, idx, t.get(idx.as_slice()), model_now.at(&idx)))
                             } else {
                                 let sz = model_now.shape[axis];
                                 let a = clip_a.min(sz);
